@@ -28,7 +28,7 @@ class ProtocolObserver(Observer):
         tx = fr.get("server_tx")
         if isinstance(tx, bool) or not isinstance(tx, (int, float)):
             self.fail("frame without numeric server_tx: %r" % (fr,))
-        if abs(tx - st.t) > 1e-6:
+        if abs(tx - st.t) > 0.01:
             self.fail("server_tx %r is not the send time %r: %r" % (tx, st.t, fr))
 
     def on_step(self, j, op, st, tr_before, gone):
